@@ -258,7 +258,9 @@ class Impl:
     def construct(self, c):
         sp = self.sp
         kw = {}
+        self.caller = []          # the caller's arrays (see `poke`)
         w = None if c.w is None else self.weights(c, c.w)
+        self.caller.append(w)
         adt = {"int": int, "bool": bool, "int8": np.int8, "uint8": np.uint8, "int64": np.int64,
                "f32": np.float32, "f64": np.float64}[c.adtype]
         if c.ctor == "igraph":
@@ -298,10 +300,26 @@ class Impl:
                                   silence_level=3, **kw)
         if c.cls != "net" and w is not None:
             net.node_weights = w          # the constructors of these classes take no weights
+        self.caller += [kw.get("adjacency"), kw.get("edge_list")]
         if c.V is not None:
-            net.set_link_attribute(ATTR, self.matrix(c, c.V))
-            net.set_link_attribute(ATTR2, self.matrix(c, second_attr(c.V)))
+            m1, m2 = self.matrix(c, c.V), self.matrix(c, second_attr(c.V))
+            net.set_link_attribute(ATTR, m1)
+            net.set_link_attribute(ATTR2, m2)
+            self.caller += [m1, m2]
         return net
+
+    def poke(self):
+        """overwrite, in place, every array the caller handed to the constructor"""
+        n = 0
+        for a in self.caller:
+            if isinstance(a, np.ndarray):
+                a[...] = 3
+                n += 1
+            elif self.sp.issparse(a) and hasattr(a, "data") and isinstance(a.data, np.ndarray) \
+                    and a.data.dtype != object:
+                a.data[...] = 0
+                n += 1
+        return n
 
     @staticmethod
     def weights(c, w):
@@ -334,7 +352,11 @@ class Impl:
             return net
         if op.startswith("setadj="):
             A = np.array(formula_a(net.N, net.directed, *op_args(op)))
-            net.adjacency = A if c.form != "list" else A.tolist()
+            if c.ctor == "coo":     # sparse, in the storage format of the case
+                f = c.form if c.form in ("csc", "csr", "lil", "dok", "coo") else "csr"
+                net.adjacency = getattr(self.sp.coo_matrix(A), "to" + f)()
+            else:
+                net.adjacency = A if c.form != "list" else A.tolist()
             return net
         if op == "regraph":
             return self.Network.FromIGraph(net.graph, silence_level=3)
@@ -372,6 +394,10 @@ class Impl:
                 for op in c.ops:
                     net = self.apply(net, op, c)
                 o = observe(net)
+                self.poked = None
+                if c.ctor != "igraph" and self.poke():
+                    # the network must not depend on arrays the caller still holds
+                    self.poked = observe(net)
         except Exception as e:  # noqa
             return None, "raise:" + type(e).__name__, e
         return o, show_obs(o), None
@@ -843,6 +869,15 @@ def run(ctx):
             corr = True
             o, ans, exc = impl.run(c)
             results.append((c, o, ans, exc))
+            if o is not None and impl.poked is not None:
+                ctx.count("caller-arrays-overwritten-afterwards")
+                if impl.poked != o:
+                    k = [k for k in o if impl.poked[k] != o[k]][0]
+                    ctx.fail({"kind": "aliasing", "cls": c.cls, "ctor": c.label(), "observable": k},
+                             f"{c.cls} {c.label()} ops={c.ops}: {k} changes when the caller overwrites "
+                             f"the arrays it handed to the constructor",
+                             {"case": c.describe(), "observable": k, "before": str(o[k]),
+                              "after": str(impl.poked[k])})
             nontriv = c.N >= 2 and len(c.edges) >= 1
             rq = model_request(c)
             ctx.case(rq, nontriv, {"request": rq[:400]} if c.N <= 4 else None)
